@@ -350,12 +350,12 @@ Proof. destruct l; [reflexivity | discriminate]. Qed.
 
 (* ------------------------------------------------------------------------- *)
 (** * the branch of a step without used parameters *)
-Lemma unparam_is_generated ap san pi sp wsm hub dep um combos g x t sparams pparams :
+Lemma unparam_is_generated ap san pi sp wsm hub dep um combos g order x t sparams pparams :
   x = s_name t -> dict_get x dep = deps_ord t -> dict_get x hub = deps_hub t ->
   alookup x combos = Some [] ->
   (forall m, In m (step_wsrefs t) -> str_mem m (deps_hub t) = false -> alookup m um = Some []) ->
   (forall p, In p (pi (deps_ord t)) -> used_in um p = []) ->
-  _stage_unparam_gen ap san pi sp wsm hub dep um combos g x t sparams pparams (step_wsrefs t) (rlimit_of sp t)
+  _stage_unparam_gen ap san pi sp wsm hub dep um combos g order x t sparams pparams (step_wsrefs t) (rlimit_of sp t)
   = match add_instance san pi sp um t x [x] (fun y => y) [] 0
             (mkSt g (aset x [x] combos) (aset x (msp san sp [x]) wsm)) with
     | Some st => Some (st_ws st, hub, dep, um, st_combos st, st_g st)
@@ -390,11 +390,11 @@ Qed.
 
 (* ------------------------------------------------------------------------- *)
 (** * one combination of a step with used parameters *)
-Lemma combo_is_generated ap san pi sp hub dep um x t sparams pparams i wsm combos g U :
+Lemma combo_is_generated ap san pi sp hub dep um order x t sparams pparams i wsm combos g U :
   x = s_name t -> dict_get x dep = deps_ord t -> dict_get x hub = deps_hub t ->
   alookup x um = Some U ->
   (forall p, In p (pi (deps_ord t)) -> exists u, alookup p um = Some u) ->
-  _stage_combo_gen ap san pi sp hub dep um x t sparams pparams (step_wsrefs t) (rlimit_of sp t) i wsm combos g
+  _stage_combo_gen ap san pi sp hub dep um order x t sparams pparams (step_wsrefs t) (rlimit_of sp t) i wsm combos g
   = match stage_row ap san pi sp um t U (mkSt g combos wsm) i with
     | Some st => Some (st_ws st, st_combos st, st_g st)
     | None => None
@@ -614,9 +614,9 @@ Proof.
   - rewrite fold_opt_none. reflexivity.
 Qed.
 
-Lemma step_is_generated ap san pi sp x t wsm hub dep um combos g :
+Lemma step_is_generated ap san pi sp order x t wsm hub dep um combos g :
   oracle_sub pi -> um_inv (sp_params sp) um -> find_step sp x = Some t -> str_eqb x SOURCE = false ->
-  _stage_step_gen ap san pi sp x wsm hub dep um combos g
+  _stage_step_gen ap san pi sp order x wsm hub dep um combos g
   = match used_step (sp_params sp) um t with
     | None => None
     | Some u =>
@@ -684,7 +684,7 @@ Proof.
       apply Hpi in Hp. apply deps_ord_In in Hp as [Hp1 Hp2].
       apply S3. split; [eapply Hinv; [exact H2 | now left]|].
       right; left. exists p, (k :: r). repeat split; auto. now left. }
-    rewrite (unparam_is_generated ap san pi sp wsm hub' dep' (aset x [] um) (aset x [] combos) g x t
+    rewrite (unparam_is_generated ap san pi sp wsm hub' dep' (aset x [] um) (aset x [] combos) g order x t
                _ _ Hx Hdep Hhub Hc Hws Hod).
     destruct (add_instance san pi sp (aset x [] um) t x [x] (fun y => y) [] 0
                 (mkSt g (aset x [x] (aset x [] combos)) (aset x (msp san sp [x]) wsm))); reflexivity.
@@ -759,21 +759,21 @@ Proof.
   destruct (body a s0); [apply IH | reflexivity].
 Qed.
 
-Lemma step_source ap san pi sp x wsm hub dep um combos g :
+Lemma step_source ap san pi sp order x wsm hub dep um combos g :
   str_eqb x SOURCE = true ->
-  _stage_step_gen ap san pi sp x wsm hub dep um combos g
+  _stage_step_gen ap san pi sp order x wsm hub dep um combos g
   = Some (wsm, hub, dep, um, combos, if g_has SOURCE g then g else g ++ [mkNode SOURCE None [] []]).
 Proof. intros H. unfold _stage_step_gen. rewrite H. reflexivity. Qed.
 
-Lemma step_unknown ap san pi sp x wsm hub dep um combos g :
+Lemma step_unknown ap san pi sp order x wsm hub dep um combos g :
   str_eqb x SOURCE = false -> find_step sp x = None ->
-  _stage_step_gen ap san pi sp x wsm hub dep um combos g = None.
+  _stage_step_gen ap san pi sp order x wsm hub dep um combos g = None.
 Proof.
   intros H Hf. unfold _stage_step_gen. rewrite H. unfold dict_item at 1.
   rewrite study_values_find, Hf. reflexivity.
 Qed.
 
-Lemma walk_is_generated ap san pi sp {R}
+Lemma walk_is_generated ap san pi sp t_sorted {R}
       (k : dict str * dict (list str) * dict (list str) * dict (list str) * dict (list str) * graph -> option R) :
   oracle_sub pi ->
   (forall w h d u c g h' d', k (w, h, d, u, c, g) = k (w, h', d', u, c, g)) ->
@@ -782,7 +782,7 @@ Lemma walk_is_generated ap san pi sp {R}
   um_inv (sp_params sp) um ->
   for_in order (wsm, hub, dep, um, combos, g)
     (fun step '(workspaces, hub_depends, depends, used_params, step_combos, dag) =>
-       _stage_step_gen ap san pi sp step workspaces hub_depends depends used_params step_combos dag) k
+       _stage_step_gen ap san pi sp t_sorted step workspaces hub_depends depends used_params step_combos dag) k
   = match plan_go sp order um with
     | None => None
     | Some um' =>
@@ -799,7 +799,7 @@ Proof.
   - rewrite step_source by exact Hsrc. apply IH; auto. intros y Hy; apply Hfresh; now right.
   - destruct (find_step sp x) as [t|] eqn:Hf.
     2:{ rewrite step_unknown by assumption. reflexivity. }
-    rewrite (step_is_generated ap san pi sp x t) by assumption.
+    rewrite (step_is_generated ap san pi sp t_sorted x t) by assumption.
     destruct (used_step (sp_params sp) um t) as [u|] eqn:Hus; [|reflexivity].
     assert (Hxn : x = s_name t) by (symmetry; apply (find_step_Some _ _ _ Hf)).
     destruct (used_step_spec _ _ _ _ Hus) as (S1 & S2 & S3).
